@@ -19,6 +19,9 @@ import (
 //	B4  a < b, a <= b, a > b, a >= b    -> b > a, b >= a, b < a, b <= a
 //	B5  x == ""                         -> len(x) == 0
 //	B6  if c {…}                        -> b := c; if b {…}
+//	B7  if/else-if chain                -> tagless switch
+//	B8  switch tag {case a:}            -> switch {case tag == a:}
+//	B9  tagless switch                  -> if/else-if chain
 func genBenignVariants(p *Prog, fns map[string]bool) []variant {
 	var out []variant
 	seen := map[string]bool{}
@@ -123,6 +126,50 @@ func genBenignVariants(p *Prog, fns map[string]bool) []variant {
 							add(x.Pos(), x.Cond.End(), nm+" := "+src(x.Cond)+"\nif "+nm, "condition `"+trunc(src(x.Cond), 40)+"` moved into a local")
 						}
 					}
+					// B7: an if / else-if chain (not itself an else-if) -> tagless switch
+					if _, isElseIf := p.Parent(f.File, x).(*ast.IfStmt); !isElseIf && x.Init == nil {
+						if _, chained := x.Else.(*ast.IfStmt); chained {
+							hasBreak := false
+							ast.Inspect(x, func(m ast.Node) bool {
+								if b, ok := m.(*ast.BranchStmt); ok && b.Tok == token.BREAK && b.Label == nil {
+									hasBreak = true
+								}
+								return true
+							})
+							inner := func(b *ast.BlockStmt) string {
+								var sb strings.Builder
+								for _, st := range b.List {
+									sb.WriteString(src(st))
+									sb.WriteString("\n")
+								}
+								return sb.String()
+							}
+							var sb strings.Builder
+							sb.WriteString("switch {\n")
+							okChain := !hasBreak
+							var cur ast.Stmt = x
+							for cur != nil && okChain {
+								switch y := cur.(type) {
+								case *ast.IfStmt:
+									if y.Init != nil {
+										okChain = false
+										break
+									}
+									sb.WriteString("case " + src(y.Cond) + ":\n" + inner(y.Body))
+									cur = y.Else
+								case *ast.BlockStmt:
+									sb.WriteString("default:\n" + inner(y))
+									cur = nil
+								default:
+									okChain = false
+								}
+							}
+							sb.WriteString("}")
+							if okChain {
+								add(x.Pos(), x.End(), sb.String(), "if chain on `"+trunc(src(x.Cond), 30)+"` -> tagless switch")
+							}
+						}
+					}
 					if x.Else == nil || x.Init != nil {
 						return true
 					}
@@ -132,6 +179,85 @@ func genBenignVariants(p *Prog, fns map[string]bool) []variant {
 					}
 					repl := "if !(" + src(x.Cond) + ") " + src(eb) + " else " + src(x.Body)
 					add(x.Pos(), x.End(), repl, "swap if/else branches of `"+trunc(src(x.Cond), 40)+"`")
+				case *ast.SwitchStmt:
+					// B8: tagged switch over a pure tag -> tagless switch with equality cases;
+					// B9: tagless switch -> if / else-if chain (no fallthrough, no break inside)
+					if x.Init != nil {
+						return true
+					}
+					hasBreak := false
+					ast.Inspect(x.Body, func(m ast.Node) bool {
+						if b, ok := m.(*ast.BranchStmt); ok && (b.Tok == token.FALLTHROUGH || (b.Tok == token.BREAK && b.Label == nil)) {
+							hasBreak = true
+						}
+						return true
+					})
+					if hasBreak {
+						return true
+					}
+					body := func(cc *ast.CaseClause) string {
+						if len(cc.Body) == 0 {
+							return ""
+						}
+						var sb strings.Builder
+						for _, st := range cc.Body {
+							sb.WriteString(src(st))
+							sb.WriteString("\n")
+						}
+						return sb.String()
+					}
+					if x.Tag != nil && pure(x.Tag) {
+						var sb strings.Builder
+						sb.WriteString("switch {\n")
+						for _, c := range x.Body.List {
+							cc := c.(*ast.CaseClause)
+							if cc.List == nil {
+								sb.WriteString("default:\n")
+							} else {
+								var conds []string
+								for _, e := range cc.List {
+									conds = append(conds, src(x.Tag)+" == "+src(e))
+								}
+								sb.WriteString("case " + strings.Join(conds, ", ") + ":\n")
+							}
+							sb.WriteString(body(cc))
+						}
+						sb.WriteString("}")
+						add(x.Pos(), x.End(), sb.String(), "tagged switch on `"+trunc(src(x.Tag), 30)+"` -> tagless switch")
+					}
+					if x.Tag == nil && len(x.Body.List) >= 1 {
+						var sb strings.Builder
+						var def *ast.CaseClause
+						first := true
+						okAll := true
+						for _, c := range x.Body.List {
+							cc := c.(*ast.CaseClause)
+							if cc.List == nil {
+								def = cc
+								continue
+							}
+							var conds []string
+							for _, e := range cc.List {
+								conds = append(conds, "("+src(e)+")")
+							}
+							if !first {
+								sb.WriteString(" else ")
+							}
+							first = false
+							sb.WriteString("if " + strings.Join(conds, " || ") + " {\n" + body(cc) + "}")
+						}
+						// a default that is not the last clause keeps its meaning as the final else
+						if def != nil {
+							if first {
+								okAll = false
+							} else {
+								sb.WriteString(" else {\n" + body(def) + "}")
+							}
+						}
+						if okAll && !first {
+							add(x.Pos(), x.End(), sb.String(), "tagless switch -> if chain")
+						}
+					}
 				case *ast.BinaryExpr:
 					op, ok := flip[x.Op]
 					if !ok || !pure(x.X) || !pure(x.Y) {
